@@ -391,6 +391,9 @@ def norm(v):
             return ("o", tag)
         if isinstance(v, (W.Made, W.Made2)):
             return ("made", type(v).__name__, norm(v.a), norm(v.b), norm(getattr(v, "c", None)))
+        if isinstance(v, (W.Part, W.Rev)):
+            # (instances built by a rule head carry no tag: identified by their type and the values of their fields)
+            return ("made", type(v).__name__, norm(v.k), norm(v.v), norm(getattr(v, "world", None)))
         return ("obj", type(v).__name__)
     if isinstance(v, (list, tuple)):
         return (type(v).__name__,) + tuple(norm(e) for e in v)
